@@ -404,6 +404,8 @@ func alwaysFollowedByInLoop(a ssa.Instruction, b ssa.Instruction, header *ssa.Ba
 
 func c37(r *Run) {
 	w := r.W
+	// the replay check itself is the shared validity window (same package and code as the transaction window of C09)
+	defer r.importRules(c09, "C09.R4", "C09.R5")
 	r.rule("C37.R1", "K12", "BuildBlock drops expired certificates; Verify rejects them on every path to success", 2)
 	r.rule("C37.R2", "K2", "Verify returns the replay verdict; BuildBlock skips repeats; Accept records the block", 4)
 	bb := r.fn(w, "C37.R1", "(*"+pkgDsmr+".Node).BuildBlock")
@@ -501,6 +503,43 @@ func c37(r *Run) {
 		} else {
 			r.missing("C37.R2", "Verify:replay-check", "VerifyExpiryReplayProtection on the block not found")
 		}
+	}
+	// R3: what the validity window sees of a block is every certificate of the block, under its chunk ID and its
+	// own expiry (the window's replay check ranges over exactly this view)
+	r.rule("C37.R3", "K7", "the validity-window view of a block lists and indexes every chunk certificate by chunk ID with the certificate's own expiry", 5)
+	if nb := r.fn(w, "C37.R3", pkgDsmr+".NewValidityWindowBlock"); nb != nil {
+		ad := findEffects(nb, "call (*ago/utils/set.Set).Add(alloc(certSet), [p0.ChunkCerts[*].ChunkReference.ChunkID])")
+		st := findEffects(nb, "store makeslice([]*dsmr.emapChunkCertificate, builtin.len(p0.ChunkCerts), builtin.len(p0.ChunkCerts))[*] = alloc(complit)")
+		cp := findEffects(nb, "store alloc(complit).ChunkCertificate = *p0.ChunkCerts[*]")
+		okk := len(ad) == 1 && len(st) == 1 && len(cp) == 1
+		if okk {
+			for _, e := range []*effect{ad[0], st[0], cp[0]} {
+				for _, c := range e.Conds() {
+					if !isLoopCond(c) {
+						okk = false
+					}
+				}
+			}
+			// slot i holds certificate i
+			okk = okk && strings.Contains(st[0].Str, ")["+strings.TrimSuffix(strings.TrimPrefix(cp[0].Str, "store alloc(complit).ChunkCertificate = *p0.ChunkCerts["), "]")+"] = ")
+		}
+		r.check(okk, "C37.R3", "NewValidityWindowBlock:every-certificate-listed-and-indexed", w.rel(nb.Pos()), "", "the validity-window view of a block does not list and index every chunk certificate of the block: a certificate left out is invisible to the replay check")
+		outs := returnOutcomes(nb)
+		r.check(len(outs) == 1 && len(findEffects(nb, "store alloc(complit).certs = alloc(certSet)")) == 1 && len(findEffects(nb, "store alloc(complit).chunkCerts = makeslice(*")) == 1, "C37.R3", "NewValidityWindowBlock:view-carries-both", w.rel(nb.Pos()), "", "the returned view does not carry the set and the list that were filled")
+	}
+	for _, g := range []struct{ fn, want, label string }{
+		{"(" + pkgDsmr + ".emapChunkCertificate).GetID", "p0.ChunkCertificate.ChunkReference.ChunkID", "id=chunk-id"},
+		{"(" + pkgDsmr + ".emapChunkCertificate).GetExpiry", "p0.ChunkCertificate.ChunkReference.Expiry", "expiry=certificate-expiry"},
+		{"(" + pkgDsmr + ".validityWindowBlock).GetContainers", "p0.chunkCerts", "containers=list"},
+	} {
+		if f := r.fn(w, "C37.R3", g.fn); f != nil {
+			o := returnOutcomes(f)
+			r.check(len(o) == 1 && len(o[0].Vals) == 1 && term(o[0].Vals[0]) == g.want, "C37.R3", short(g.fn)+":"+g.label, w.rel(f.Pos()), g.want, "the validity window is given something other than "+g.want)
+		}
+	}
+	if f := r.fn(w, "C37.R3", "("+pkgDsmr+".validityWindowBlock).Contains"); f != nil {
+		o := returnOutcomes(f)
+		r.check(len(o) == 1 && len(o[0].Vals) == 1 && (strings.HasSuffix(term(o[0].Vals[0]), ".Contains(p0.certs, p1)") || strings.HasSuffix(term(o[0].Vals[0]), ".Contains(alloc(e).certs, p1)")), "C37.R3", "validityWindowBlock.Contains:set-lookup", w.rel(f.Pos()), "", "Contains is not the lookup of the asked ID in the block's certificate set")
 	}
 	acc := r.fn(w, "C37.R2", "(*"+pkgDsmr+".Node).Accept")
 	if acc != nil {
